@@ -6,8 +6,8 @@
 //!                   SegmentWriter/Reader, CheckpointWriter/Reader and all five GossipMessage
 //!                   variants; the peer-view projection must be identical
 //!   mut_segment     for a generated segment image: EVERY truncation length and every byte
-//!   mut_checkpoint  position x {8 bit flips, 0x00, 0xFF} (images > 3000 bytes in the quick
-//!   mut_wal         tier: all structural bytes + sampled body), each through the pipeline in
+//!   mut_checkpoint  position x {8 bit flips, 0x00, 0xFF} (images > 3000 bytes, thorough
+//!   mut_wal         > 16 KiB: all structural bytes + sampled body), each through the pipeline in
 //!                   the order recovery uses it (direct API: open -> validate -> read, and
 //!                   through RecoveryManager::recover / WalRotator::recover_all_entries):
 //!                   error (or, WAL, a shorter entry list) or identical projection; no panic
@@ -31,8 +31,18 @@ use vcore::runner::catch;
 use vcore::{CaseCtx, Level, Session};
 use worldgen::{Features, GenCfg, WorldSpec};
 
-/// images up to this size are enumerated completely in the quick tier
-const FULL_LIMIT: usize = 3000;
+/// images up to this size are enumerated completely (quick / thorough tier); larger ones get
+/// all structural bytes + sampled body bytes
+const FULL_LIMIT_QUICK: usize = 3000;
+const FULL_LIMIT_THOROUGH: usize = 16384;
+
+fn full_limit(ctx: &CaseCtx<'_>) -> usize {
+    if ctx.tier() == vcore::Tier::Thorough {
+        FULL_LIMIT_THOROUGH
+    } else {
+        FULL_LIMIT_QUICK
+    }
+}
 
 fn ready<F: std::future::Future>(f: F) -> F::Output {
     f.now_or_never()
@@ -714,7 +724,7 @@ fn check_mut_segment(case: &MutCase, ctx: &mut CaseCtx<'_>) -> Result<(), String
     if projs(&seg_direct(&img)?) != want || projs(&via.run(&img)?) != want {
         return Err("the intact segment image does not read back (see roundtrip)".into());
     }
-    let full = ctx.tier() == vcore::Tier::Thorough || n <= FULL_LIMIT;
+    let full = n <= full_limit(ctx);
     ctx.label(if full { "enumerated_completely" } else { "structural_plus_sampled" });
     let structural = |p: usize| seg_field(p, n, &rec_starts) != "record.body";
     let mut local = BTreeMap::new();
@@ -765,7 +775,7 @@ fn check_mut_checkpoint(case: &MutCase, ctx: &mut CaseCtx<'_>) -> Result<(), Str
     if ck_direct(&img)? != want || via.run(&img)? != want_state {
         return Err("the intact checkpoint image does not read back (see roundtrip)".into());
     }
-    let full = ctx.tier() == vcore::Tier::Thorough || n <= FULL_LIMIT;
+    let full = n <= full_limit(ctx);
     ctx.label(if full { "enumerated_completely" } else { "structural_plus_sampled" });
     let structural = |p: usize| ck_field(p, n) != "data.body";
     let mut local = BTreeMap::new();
@@ -836,7 +846,7 @@ fn check_mut_wal(case: &MutCase, ctx: &mut CaseCtx<'_>) -> Result<(), String> {
         }
         let before: Vec<&WEntry> = files[..fi].iter().flat_map(|(_, v)| v.iter()).collect();
         let after: Vec<&WEntry> = files[fi + 1..].iter().flat_map(|(_, v)| v.iter()).collect();
-        let full = ctx.tier() == vcore::Tier::Thorough || n <= FULL_LIMIT;
+        let full = n <= full_limit(ctx);
         ctx.label(if full { "enumerated_completely" } else { "structural_plus_sampled" });
         let structural = |p: usize| wal_field(p, &starts).0 != "entry.data";
         let mut tolerated = 0u64;
@@ -972,7 +982,7 @@ fn main() {
          (optionally causal = vector clocks; gossip between them; remote far-ahead stamps) plus GCounter/PNCounter/GSet/ORSet values built with the public mutators; \
          payloads empty/1 byte/binary/control/23-24 bytes/4 KiB/64 KiB; keys and hash fields include empty, control characters, astral, 300-char; expiry incl. 0 and u64::MAX; rf. \
          roundtrip: each batch through WalEntry, WalRotator files, segment, checkpoint and the five gossip variants. \
-         mut_*: per generated image EVERY truncation length and every byte x {8 single-bit flips, 0x00, 0xFF} (quick tier, images > 3000 bytes: all header/footer/length bytes + 192 sampled body bytes), \
+         mut_*: per generated image EVERY truncation length and every byte x {8 single-bit flips, 0x00, 0xFF} (images > 3000 bytes, thorough tier > 16 KiB: all header/footer/length bytes + 192 sampled body bytes), \
          each through the direct reader pipeline and through RecoveryManager::recover / WalRotator::recover_all_entries. \
          non-trivial = (roundtrip) the batch shows >= 2 components beyond a plain live string (hash, tombstone, field tombstone, expiry, vector clock, rf, counter, set, non-UTF-8 payload); \
          (mut_*) always, because every length/checksum/count byte of the image is among the mutations; distinct by generated world (+ encoding)",
